@@ -26,6 +26,8 @@ type task struct {
 	gate     chan struct{}
 	quantum  int64
 	syncQ    int64 // >0: yield after this many more synchronisation operations
+	untilObj unsafe.Pointer // != nil: syncQ starts (at afterK) once an operation on this object is performed
+	afterK   int64
 	steps    int64
 	budget   int64
 	done     bool
@@ -115,6 +117,7 @@ func RunTasks(fns []func(), budget []int64, choose Chooser) RunResult {
 		startTask(t, fns[i], finish)
 	}
 	wgCount = map[*sync.WaitGroup]int{}
+	PrevSyncObj, NextUntilObj, NextSyncQuantum = nil, nil, 0
 	schedActive, Acc, accActive = true, true, true
 	last, lastSite := 0, uint32(0)
 	for {
@@ -154,7 +157,12 @@ func RunTasks(fns []func(), budget []int64, choose Chooser) RunResult {
 		t := allTasks[id-1]
 		before := t.steps
 		t.quantum = q
-		t.syncQ, NextSyncQuantum = NextSyncQuantum, 0
+		if NextUntilObj != nil {
+			t.untilObj, t.afterK, t.syncQ = NextUntilObj, NextSyncQuantum, 0
+		} else {
+			t.untilObj, t.syncQ = nil, NextSyncQuantum
+		}
+		NextSyncQuantum, NextUntilObj = 0, nil
 		curTask = t
 		t.gate <- struct{}{}
 		<-schedBk
@@ -253,7 +261,7 @@ func spawn(fn func()) {
 	p.vc[p.id]++
 	allTasks = append(allTasks, t)
 	startTask(t, fn, finishCh)
-	syncPoint()
+	syncPoint(nil)
 }
 
 // DrainGo runs the calls queued by go statements outside the scheduler (and whatever
@@ -285,7 +293,7 @@ func WGAdd(wg *sync.WaitGroup, n int) {
 	}
 	if n < 0 {
 		SyncRelease(unsafe.Pointer(wg))
-		syncPoint()
+		syncPoint(unsafe.Pointer(wg))
 	}
 }
 
@@ -307,7 +315,7 @@ func WGWait(wg *sync.WaitGroup) {
 		blockYield()
 	}
 	SyncAcquire(unsafe.Pointer(wg))
-	syncPoint()
+	syncPoint(unsafe.Pointer(wg))
 }
 
 // ---- happens-before edges of modelled synchronisation ----
